@@ -1,8 +1,8 @@
 use super::*;
 use crate::{base::SentinelRule, logging, utils};
-use lazy_static::lazy_static;
+use crate::vsync::lazy_static;
 use std::collections::{HashMap, HashSet};
-use std::sync::{Arc, Mutex, RwLock};
+use crate::vsync::{Arc, Mutex, RwLock};
 
 pub type RuleMap = HashMap<MetricType, HashSet<Arc<Rule>>>;
 
